@@ -108,11 +108,20 @@ def run_configs(ctx, module, harness_bin, configs, actions, what_prefix, harness
 
 def run_harness(ctx, exe, cases, args, label):
     rep_path = os.path.join(ctx.out, "report-%s.json" % label)
-    ctx.run_harness(exe, [cases] + list(args) + [rep_path], timeout=3000,
-                    env={"VERIF_WORKERS": "8"})
+    # Bounded three times over: every step / shutdown of a model thread (VERIF_STEP_TIMEOUT, in the
+    # harness: a reproducible hang is reported as data, a lost reply of the engine exits 2), the whole
+    # harness (VERIF_HARNESS_LIMIT: exit 2 naming the programs in flight) and, last, this subprocess.
+    limit = 200 if ctx.quick else 2400
+    ctx.run_harness(exe, [cases] + list(args) + [rep_path], timeout=limit + 60,
+                    env={"VERIF_WORKERS": "8", "VERIF_HARNESS_LIMIT": str(limit),
+                         "VERIF_STEP_TIMEOUT": "20"})
     with open(rep_path) as f:
         rep = json.load(f)
     ctx.cov["traces_validated_against_impl"] += rep["cases"]
+    noise = rep.get("extra", {}).get("flaky_hangs", 0)
+    if noise:
+        ctx.cov["hangs_not_reproduced"] = ctx.cov.get("hangs_not_reproduced", 0) + noise
+        vlib.log("[harness] %d program(s) hung once and ran normally when repeated (platform noise, not a verdict)" % noise)
     ctx.cov["impl_steps_compared"] = ctx.cov.get("impl_steps_compared", 0) + rep["checks"]
     return rep
 
